@@ -48,8 +48,11 @@ def generate(run_seed, tier):
         g = W.Generator(rw, ref_compute, families=fams + ["partitions", "headtail"], knob_space=W.knob_space_default(), max_ops=6 if tier == "quick" else 8,
                         pool_knobs=True, knob_prob=0.4)
         if rw.random() < 0.3:
-            # a source that reads external mutable state: lets the session re-persist after "somebody rewrote the file"
+            # a source that reads external mutable state: lets the session re-persist after "somebody rewrote the file".
+            # Its expression name does not change with the data, so planner caches keyed by name (sort / set_index
+            # divisions, partition memory sizes) are legitimately stale after the switch: those ops are not combined with it
             g.source_kinds = ("from_map_epoch",)
+            g.families = [f for f in g.families if f not in ("set_index", "sort_values", "repartition", "merge", "twin")]
         recipe = g.generate(n_targets=1)
         if recipe is None or not recipe["targets"]:
             return None
